@@ -228,14 +228,41 @@ func runC19(c *eng.Ctx, tier string) {
 		detail := "value " + eng.ValStr(rv[0])
 		if b, isB := eng.Origin(rv[0]).(*ssa.BinOp); isB && b.Op == token.GTR {
 			if fr, _, isF := eng.LoadedField(b.Y); isF && fr.Is(setecPkg, "Store", "expiryAge") {
-				if sub, _ := eng.TupleCall(b.X); sub != nil && eng.CalleeIs(&sub.Call, "time", "Time.Sub") {
-					nowOK := p.DependsOn(sub.Call.Args[0], func(v ssa.Value) bool {
+				// the age: now.Sub(last access), computed here or by a small helper of the entry
+				age := b.X
+				mapv := func(v ssa.Value) ssa.Value { return eng.Origin(v) }
+				if inner, hc := eng.ThroughHelper(age, func(g *ssa.Function) bool { return eng.IsHelper(pred, g) }); inner != nil {
+					h := eng.Callee(&hc.Call)
+					age = inner
+					mapv = func(v ssa.Value) ssa.Value {
+						o := eng.Origin(v)
+						if prm, isP := o.(*ssa.Parameter); isP && prm.Parent() == h {
+							for i, q := range h.Params {
+								if q == prm && i < len(hc.Call.Args) {
+									return eng.Origin(hc.Call.Args[i])
+								}
+							}
+						}
+						return o
+					}
+				}
+				if sub, _ := eng.TupleCall(age); sub != nil && eng.CalleeIs(&sub.Call, "time", "Time.Sub") {
+					isClock := func(v ssa.Value) bool {
 						fr2, _, isF2 := eng.LoadedField(v)
 						return isF2 && fr2.Is(setecPkg, "Store", "timeNow")
+					}
+					nowOK := p.DependsOn(sub.Call.Args[0], func(v ssa.Value) bool {
+						if isClock(v) {
+							return true
+						}
+						if m := mapv(v); m != eng.Origin(v) {
+							return p.DependsOn(m, isClock)
+						}
+						return false
 					})
 					lastOK := false
 					if la, _ := eng.TupleCall(sub.Call.Args[1]); la != nil {
-						if cal := eng.Callee(&la.Call); cal != nil && p.CallGraph() != nil && readsLastAccess(cal) && len(la.Call.Args) == 1 && eng.Origin(la.Call.Args[0]) == ssa.Value(csP) {
+						if cal := eng.Callee(&la.Call); cal != nil && p.CallGraph() != nil && readsLastAccess(cal) && len(la.Call.Args) == 1 && mapv(la.Call.Args[0]) == ssa.Value(csP) {
 							lastOK = true
 						}
 					}
